@@ -21,7 +21,17 @@ use crate::simterm::SimTerm;
 
 pub struct C06;
 
-const WAYS: [&str; 7] = ["hidden_target", "set_hidden_later", "non_tty_term", "mp_hidden", "mp_non_tty", "removed_from_mp", "hidden_ctor"];
+const WAYS: [&str; 9] = [
+    "hidden_target",
+    "set_hidden_later",
+    "non_tty_term",
+    "mp_hidden",
+    "mp_non_tty",
+    "removed_from_mp",
+    "hidden_ctor",
+    "moved_to_hidden_mp",
+    "hidden_while_mp_hidden",
+];
 
 fn style() -> ProgressStyle {
     ProgressStyle::with_template("{prefix}{msg} {pos}/{len} {spinner}").unwrap()
@@ -133,8 +143,16 @@ fn exec(sc: &Scenario) -> Report {
                     return r;
                 }
             },
+            "hidden_while_mp_hidden" => {
+                // member of a hidden MultiProgress that is hidden explicitly, too; the MultiProgress
+                // gets a visible target later
+                let mp = MultiProgress::with_draw_target(ProgressDrawTarget::hidden());
+                let pb = mp.add(ProgressBar::with_draw_target(len, ProgressDrawTarget::term_like(Box::new(spy.clone()))));
+                mp_keep = Some(mp);
+                pb
+            }
             _ => {
-                // removed_from_mp: a visible MultiProgress on the spy terminal with a sibling
+                // removed_from_mp / moved_to_hidden_mp: a visible MultiProgress on the spy terminal with a sibling
                 let mp = MultiProgress::with_draw_target(ProgressDrawTarget::term_like(Box::new(spy.clone())));
                 let sib = mp.add(ProgressBar::with_draw_target(Some(10), ProgressDrawTarget::hidden()));
                 sib.set_style(style());
@@ -150,9 +168,10 @@ fn exec(sc: &Scenario) -> Report {
         let ops = sc.threads.first().cloned().unwrap_or_default();
         let switch_at = (sc.c("switch_at") as usize).min(ops.len());
         let mut silent_from: Option<usize> = match way {
-            "mp_hidden" => Some(0),
+            "mp_hidden" | "hidden_while_mp_hidden" => Some(0),
             _ => None,
         };
+        let mut mp_hidden2: Option<MultiProgress> = None;
         for (i, op) in ops.iter().enumerate() {
             let at = format!("op#{i} {}", op.short());
             if i == switch_at {
@@ -166,6 +185,19 @@ fn exec(sc: &Scenario) -> Report {
                             mp.remove(&hid);
                         }
                         silent_from = Some(i);
+                    }
+                    "moved_to_hidden_mp" => {
+                        // handed over from the visible MultiProgress to a hidden one
+                        let mp2 = MultiProgress::with_draw_target(ProgressDrawTarget::hidden());
+                        let _ = if sc.c("switch_at") % 2 == 0 { mp2.add(hid.clone()) } else { mp2.insert(0, hid.clone()) };
+                        mp_hidden2 = Some(mp2);
+                        silent_from = Some(i);
+                    }
+                    "hidden_while_mp_hidden" => {
+                        hid.set_draw_target(ProgressDrawTarget::hidden());
+                        if let Some(mp) = &mp_keep {
+                            mp.set_draw_target(ProgressDrawTarget::term_like(Box::new(spy.clone())));
+                        }
                     }
                     _ => {}
                 }
@@ -234,6 +266,7 @@ fn exec(sc: &Scenario) -> Report {
         drop(hid);
         drop(vis);
         drop(sibling);
+        drop(mp_hidden2);
         drop(mp_keep);
         if let Some(p) = file_path {
             let len = std::fs::metadata(&p).map(|m| m.len()).unwrap_or(0);
@@ -252,7 +285,7 @@ impl Check for C06 {
         "C06"
     }
     fn rule_text(&self) -> String {
-        "One way of being hidden per run (ProgressDrawTarget::hidden(), ProgressBar::hidden(), set_draw_target(hidden()) after having been visible, a real console::Term over a regular file = not a tty, member of a MultiProgress built on a hidden target or on the non-tty Term, bar removed from a visible MultiProgress with a live sibling). A history of 3..30 calls (tick/inc/dec/set_position/set_message/set_prefix/length ops/set_style/set_tab_width/println/suspend/reset*/finish*/abandon*/finish_using_style/force_draw/update/enable+disable_steady_tick/wrap_iter/getters, clock gaps and simulated sleeps) is applied in lock-step to the hidden bar and to a visible twin on its own simulated terminal, same virtual clock. Oracle: after every call position/length/message/prefix/is_finished are equal; a spy terminal attributes every call and query to the API call in progress and must see none from the hidden bar (also while a steady ticker runs); the file behind the non-tty Term stays empty; no call panics. Non-trivial: >= 3 calls and the visible twin painted at least one frame. Distinct = distinct scenario hash.".into()
+        "One way of being hidden per run (ProgressDrawTarget::hidden(), ProgressBar::hidden(), set_draw_target(hidden()) after having been visible, a real console::Term over a regular file = not a tty, member of a MultiProgress built on a hidden target or on the non-tty Term, bar removed from a visible MultiProgress with a live sibling, bar handed over from a visible MultiProgress to a hidden one, member of a hidden MultiProgress that is also hidden explicitly before the MultiProgress gets a visible target). A history of 3..30 calls (tick/inc/dec/set_position/set_message/set_prefix/length ops/set_style/set_tab_width/println/suspend/reset*/finish*/abandon*/finish_using_style/force_draw/update/enable+disable_steady_tick/wrap_iter/getters, clock gaps and simulated sleeps) is applied in lock-step to the hidden bar and to a visible twin on its own simulated terminal, same virtual clock. Oracle: after every call position/length/message/prefix/is_finished are equal; a spy terminal attributes every call and query to the API call in progress and must see none from the hidden bar (also while a steady ticker runs); the file behind the non-tty Term stays empty; no call panics. Non-trivial: >= 3 calls and the visible twin painted at least one frame. Distinct = distinct scenario hash.".into()
     }
     fn assumptions(&self) -> Vec<String> {
         vec![
@@ -269,7 +302,7 @@ impl Check for C06 {
     fn gen(&self, rng: &mut Rng, tier: Tier, _index: u64) -> Scenario {
         let mut sc = Scenario::new("C06", "twin", rng.next_u64());
         // the file-backed ways cost syscalls: keep them at a smaller share
-        sc.set("way", rng.weighted(&[5, 5, 1, 4, 1, 6, 2]) as u64);
+        sc.set("way", rng.weighted(&[5, 5, 1, 4, 1, 6, 2, 4, 4]) as u64);
         sc.set("len_known", rng.chance(3, 4) as u64);
         sc.set("len0", boundary_u64(rng));
         sc.set("on_finish", rng.below(5));
